@@ -36,14 +36,20 @@ Cost(costs, t) == costs[t + 1]
 LastRep(n) == IF Len(n.rep) = 0 THEN "none" ELSE n.rep[Len(n.rep)][1]
 TrailShifts(rep) == LET idx == {i \in 1 .. Len(rep) : rep[i][1] # "s"}
                     IN IF idx = {} THEN Len(rep) ELSE Len(rep) - Max(idx)
+\* a configuration is a success if the last N repairs are shifts, or if the parser - after the
+\* reductions the lookahead calls for - accepts
 Success(T, toks, n) == \/ TrailShifts(n.rep) >= ParseAtLeast
-                       \/ TAct(T, n.st[Len(n.st)], Tok(toks, n.la))[1] = "a"
+                       \/ LR1Tok(T, n.st, Tok(toks, n.la), RFuel).acc
 
+\* shift one real lexeme (after the reductions it calls for).  There is deliberately no
+\* "reduce only" move: reductions depend on the lookahead, so a stack reduced under one
+\* lookahead must not be the starting point of an insert or delete (replaying the sequence on
+\* the real parser would not recreate it).
 ShiftNbr(T, toks, n) ==
   LET r == LR1Tok(T, n.st, Tok(toks, n.la), RFuel) IN
-  IF r.st = n.st THEN {}                              \* "S # S'" in the code's comment
-  ELSE {[st |-> r.st, la |-> IF r.shifted THEN n.la + 1 ELSE n.la,
-         rep |-> IF r.shifted THEN Append(n.rep, <<"s", 0>>) ELSE n.rep, c |-> n.c]}
+  IF r.shifted /\ n.la < Len(toks)
+  THEN {[st |-> r.st, la |-> n.la + 1, rep |-> Append(n.rep, <<"s", 0>>), c |-> n.c]}
+  ELSE {}
 InsNbrs(T, toks, costs, n) ==
   IF LastRep(n) = "d" THEN {} ELSE                    \* never insert after delete
   UNION { LET r == LR1Tok(T, n.st, t, RFuel) IN
@@ -63,20 +69,25 @@ ShiftClose(T, toks, done, todo) ==
            done2 == done \cup todo
        IN ShiftClose(T, toks, done2, new \ done2)
 
-\* layered search; `buckets' is a function cost -> set of seed nodes.  Returns
-\* [found |-> BOOLEAN, succ |-> set of success nodes of the first layer that has any]
+\* Layered search.  `pend' holds the seed nodes of the layers not yet explored; the next
+\* layer is the one of least cost.  Nodes with more than maxops inserts/deletes are dropped and
+\* the least cost of a dropped node is remembered (dmin): a result of cost c is exact only if
+\* c < dmin.  Returns [found, succ, capped].
+Ops(rep) == Cardinality({i \in 1 .. Len(rep) : rep[i][1] # "s"})
+BIG == 100000000
 RECURSIVE Search(_, _, _, _, _, _)
-Search(T, toks, costs, buckets, c, maxc) ==
-  IF c > maxc THEN [found |-> FALSE, succ |-> {}, capped |-> TRUE]
-  ELSE LET layer == ShiftClose(T, toks, {}, buckets[c])
+Search(T, toks, costs, pend, maxops, dmin) ==
+  IF pend = {} THEN [found |-> FALSE, succ |-> {}, capped |-> dmin < BIG]
+  ELSE LET c     == Min({n.c : n \in pend})
+           seeds == {n \in pend : n.c = c}
+           layer == ShiftClose(T, toks, {}, seeds)
            succ  == {n \in layer : Success(T, toks, n)}
-       IN IF succ # {} THEN [found |-> TRUE, succ |-> succ, capped |-> FALSE]
+       IN IF succ # {} THEN [found |-> TRUE, succ |-> succ, capped |-> dmin <= c]
           ELSE LET nbrs == UNION { InsNbrs(T, toks, costs, n) \cup DelNbr(toks, costs, n) : n \in layer }
-                   b2 == [k \in DOMAIN buckets |->
-                            IF k > c THEN buckets[k] \cup {n \in nbrs : n.c = k} ELSE buckets[k]]
-               IN IF \A k \in DOMAIN b2 : k <= c \/ b2[k] = {}
-                  THEN [found |-> FALSE, succ |-> {}, capped |-> \E n \in nbrs : n.c > maxc]
-                  ELSE Search(T, toks, costs, b2, c + 1, maxc)
+                   keep == {n \in nbrs : Ops(n.rep) <= maxops}
+                   drop == nbrs \ keep
+                   dmin2 == IF drop = {} THEN dmin ELSE Min({dmin} \cup {n.c : n \in drop})
+               IN Search(T, toks, costs, (pend \ seeds) \cup keep, maxops, dmin2)
 
 \* how far does a plain parse get from a configuration (rank_cnds)
 RECURSIVE Dist(_, _, _, _, _)
@@ -88,10 +99,11 @@ Dist(T, toks, st, la, lim) ==
 Strip(rep) == SubSeq(rep, 1, Len(rep) - TrailShifts(rep))
 
 \* result: [found, capped, cost, set : set of stripped repair sequences]
-RefRepairs(T, toks, costs, st, la, maxc) ==
+RefRepairs(T, toks, costs, st, la, maxops) ==
   LET start == [st |-> st, la |-> la, rep |-> <<>>, c |-> 0]
-      res   == Search(T, toks, costs, [k \in 0 .. maxc |-> IF k = 0 THEN {start} ELSE {}], 0, maxc)
+      res   == Search(T, toks, costs, {start}, maxops, BIG)
   IN IF ~res.found THEN [found |-> FALSE, capped |-> res.capped, cost |-> -1, set |-> {}]
+     ELSE IF res.capped THEN [found |-> FALSE, capped |-> TRUE, cost |-> -1, set |-> {}]
      ELSE LET far == Max({Dist(T, toks, n.st, n.la, la + TryParseAtMost) : n \in res.succ})
               best == {m \in res.succ : Dist(T, toks, m.st, m.la, la + TryParseAtMost) = far}
           IN [found |-> TRUE, capped |-> FALSE, cost |-> (CHOOSE n \in res.succ : TRUE).c,
